@@ -500,13 +500,17 @@ def step (s : State) : Op → State × Res
 
 def run (s : State) (ops : List Op) : State := ops.foldl (fun s op => (step s op).1) s
 
-/-- genesis of the slice: no subaccounts, arbitrary balances -/
-def init (fixed : Bool) (bank : Nat → Int) : State := { fixed := fixed, bank := bank }
+/-- genesis of the slice: no subaccounts, arbitrary balances; the three flags select the patched code -/
+def initCfg (fixed fixedNeg fixedRet : Bool) (bank : Nat → Int) : State :=
+  { fixed := fixed, fixedNeg := fixedNeg, fixedRet := fixedRet, bank := bank }
 
-/-- genesis with both patches selectable -/
-def init2 (fixed fixedNeg : Bool) (bank : Nat → Int) : State := { fixed := fixed, fixedNeg := fixedNeg, bank := bank }
+/-- genesis with only the unlocked-withdrawal patch selectable (`fixed = false`: the code as it is) -/
+def init (fixed : Bool) (bank : Nat → Int) : State := initCfg fixed false false bank
+
+/-- genesis with the two patches of `fixed` / `fixedNeg` selectable -/
+def init2 (fixed fixedNeg : Bool) (bank : Nat → Int) : State := initCfg fixed fixedNeg false bank
 
 /-- genesis with all three patches -/
-def initFixed (bank : Nat → Int) : State := { fixed := true, fixedNeg := true, fixedRet := true, bank := bank }
+def initFixed (bank : Nat → Int) : State := initCfg true true true bank
 
 end Sge.Subaccount
